@@ -5,7 +5,7 @@
    round-trips (Python's contract), the GPX/XML layer and the network CSV layer (oracle streams only); the WKT layer is proved at the
    level of tokens (C13_wkt_tokens). *)
 From Coq Require Import List Ascii String ZArith QArith Qabs Bool Lia.
-From TL Require Import Model.TextFmt Proofs.Columns Proofs.TimeText Model.CsvText Model.WktText Proofs.FixedText Proofs.CsvLine Proofs.CsvFile Proofs.WktText Model.NetText Proofs.NetText.
+From TL Require Import Model.TextFmt Proofs.Columns Proofs.TimeText Model.CsvText Model.WktText Proofs.FixedText Proofs.CsvLine Proofs.CsvFile Proofs.WktText Model.NetText Proofs.NetText Model.GpxText Proofs.GpxText.
 Import ListNotations.
 Close Scope Z_scope.
 Close Scope Q_scope.
@@ -76,6 +76,28 @@ Proof. exact (net_file_roundtrip h sep es). Qed.
 Print Assumptions C13_network_file.
 Example C13_network_example : edge_ok "," {| e_id := "e0"; e_src := "n1"; e_tgt := "n2"; e_dir := "-1"; e_pts := [("1.5", "-2e-05"); ("3.0", "4.25")] |}.
 Proof. exact edge_ok_ex. Qed.
+
+(* GPX: a collection written by the model's writer (any header lines without track markers) and read by the model of the line-based
+   reader gives back, track by track and in order, the same points (latitude, longitude, height and time tokens) ... *)
+Theorem C13_gpx_file hdr ts : Forall ghdr_ok hdr -> Forall trk_ok ts -> read_gpx (write_gpx hdr ts) = Some (map tpts ts).
+Proof. exact (gpx_file_roundtrip hdr ts). Qed.
+Print Assumptions C13_gpx_file.
+(* ... the GPX time format round-trips exactly ... *)
+Theorem C13_gpx_time t : stamp_lt t -> read_gpx_time (print_gpx_time t) = t.
+Proof. intros [H1 [H2 [H3 [H4 [H5 H6]]]]]. exact (gpx_time_roundtrip t H1 H2 H3 H4 H5 H6). Qed.
+Print Assumptions C13_gpx_time.
+(* ... hence, for tracks given by their values: as many tracks and points, in order, every coordinate and height read back within half a unit
+   of the eighth decimal (5e-9 degree), the time identical to the second *)
+Theorem C13_gpx_values hdr (ts : list (string * list (Q * Q * Q * stamp))) :
+  Forall ghdr_ok hdr -> Forall (fun t => gtok (fst t) /\ Forall (fun o => stamp_lt (snd o)) (snd t)) ts ->
+  exists back, read_gpx (write_gpx hdr (map (fun t => {| tname := fst t; tpts := map (fun '(la, lo, el, s) => gpx_point la lo el s) (snd t) |}) ts)) = Some back
+    /\ Forall2 (fun t b => Forall2 (fun '(la, lo, el, s) (q : pt) =>
+         (exists v, parse_fixed (lat q) = Some v /\ (Qabs (v - la) <= 1 # (2 * pow10 8))%Q) /\
+         (exists v, parse_fixed (lon q) = Some v /\ (Qabs (v - lo) <= 1 # (2 * pow10 8))%Q) /\
+         (exists v, parse_fixed (ele q) = Some v /\ (Qabs (v - el) <= 1 # (2 * pow10 8))%Q) /\
+         read_gpx_time (list_ascii_of_string (tim q)) = s) (snd t) b) ts back.
+Proof. exact (gpx_values_roundtrip hdr ts). Qed.
+Print Assumptions C13_gpx_values.
 
 Example C13_example :
   let t := mk 29 2 2020 23 59 59 in
